@@ -2,8 +2,8 @@
 """store_seeded.py Cxx i 'check result text' : copies /tmp/mut/Cxx/out/m<i> into seeded/Cxx-m<i>"""
 import json, os, shutil, sys
 pid, i, result = sys.argv[1], sys.argv[2], sys.argv[3]
-src = "/tmp/mut/%s/out/m%s" % (pid, i)
-dst = "/verif/seeded/%s-m%s" % (pid, i)
+src = "%s/out/m%s" % (os.environ.get("MUT_WT", "/tmp/mut/" + pid), i)
+dst = "/verif/seeded/%s-m%d" % (pid, int(i) + int(os.environ.get("MUT_OFFSET", "0")))
 os.makedirs(dst, exist_ok=True)
 shutil.copy(src + "/patch.diff", dst + "/patch.diff")
 for fn in os.listdir(src):
